@@ -472,15 +472,27 @@ class SGen:
                 acts += " (ondelete %s)" % r.choice(gen_actions)
             if r.random() < 0.6:
                 acts += " (onupdate %s)" % r.choice(gen_actions)
-            nm = "(name %s) " % hexs(pool.pop()) if r.random() < 0.5 else ""
-            frm = "(fromtbl (t %s)) " % hexs(child) if r.random() < 0.5 else ""
+            parts = []
+            if r.random() < 0.5:
+                parts.append("(name %s)" % hexs(pool.pop()))
+            if r.random() < 0.5:
+                parts.append("(fromtbl (t %s))" % hexs(child))
+            parts.append("(totbl (t %s))" % hexs(parent))
             if r.random() < 0.6 or len(plain) < 2:
-                elems.append("(fk (fk %s%s(totbl (t %s)) (fromcol %s) (tocol %s)%s))"
-                             % (nm, frm, hexs(parent), hexs(r.choice(plain)), hexs(pa), acts))
+                parts += ["(fromcol %s)" % hexs(r.choice(plain)), "(tocol %s)" % hexs(pa)]
             else:
                 x, y = r.sample(plain, 2)
-                elems.append("(fk (fk %s%s(totbl (t %s)) (fromcol %s) (fromcol %s) (tocol %s) (tocol %s)%s))"
-                             % (nm, frm, hexs(parent), hexs(x), hexs(y), hexs(pb), hexs(pc), acts))
+                parts += ["(fromcol %s)" % hexs(x), "(fromcol %s)" % hexs(y), "(tocol %s)" % hexs(pb), "(tocol %s)" % hexs(pc)]
+            parts += acts.split(" (")[1:] and ["(" + a for a in acts.split(" (")[1:]]
+            if r.random() < 0.4:
+                # the builder calls in any order (columns before tables, actions first, ...): only the order among
+                # the key columns and among the referenced columns carries meaning
+                fc = [p_ for p_ in parts if p_.startswith("(fromcol")]
+                tc = [p_ for p_ in parts if p_.startswith("(tocol")]
+                r.shuffle(parts)
+                fi, ti = iter(fc), iter(tc)
+                parts = [next(fi) if p_.startswith("(fromcol") else next(ti) if p_.startswith("(tocol") else p_ for p_ in parts]
+            elems.append("(fk (fk %s))" % " ".join(parts))
         for _ in range(r.choice([0, 0, 0, 1, 2])):
             if ints:
                 elems.append("(check (bin ne (col %s) (val i:i32:%d)))" % (hexs(r.choice(ints)), r.randrange(1000, 100000)))
